@@ -219,6 +219,8 @@ def provider_sweep(ctx, rng, provider, budget):
         stub = sb.path("stub")
         os.makedirs(stub, exist_ok=True)
         for name, script_text in (("gpg-dies-mid-stream", "#!/bin/sh\nhead -c 300 /dev/urandom\nexit 2\n"),
+                                  ("gpg-killed-mid-stream", "#!/bin/sh\ncat > /dev/null\nhead -c 3000 /dev/urandom\nkill -9 $$\n"),
+                                  ("gpg-terminated-mid-stream", "#!/bin/sh\nhead -c 70000 /dev/urandom\nkill -15 $$\n"),
                                   ("gpg-fails-at-once", "#!/bin/sh\necho 'gpg: fatal' >&2\nexit 2\n")):
             with open(os.path.join(stub, "gpg"), "w") as f:
                 f.write(script_text)
@@ -280,7 +282,7 @@ def run(ctx):
     ctx.rule = ("for each of Dropbox, Yandex Disk, Google Drive: a local group of two backups made by real runs is uploaded to the emulator; one "
                 "undisturbed reference run, then %s (request, fault kind) pairs out of every request of the reference run x {4xx JSON, 5xx JSON, 5xx "
                 "text, malformed JSON, missing Content-Type, reset before body, reset inside body, server-side corruption, wrong reported checksum}, "
-                "each on a fresh emulator state; plus gpg dying mid-stream, gpg failing at once, gpg absent, and the first / second read of a backup's data.tar.zst / metadata.zst failing with EIO (strace injection). Non-trivial: every faulted run; "
+                "each on a fresh emulator state; plus gpg exiting non-zero mid-stream, gpg killed by SIGKILL / SIGTERM mid-stream (silently), gpg failing at once, gpg absent, and the first / second read of a backup's data.tar.zst / metadata.zst failing with EIO (strace injection). Non-trivial: every faulted run; "
                 "distinct by (provider, request index, kind)." % ("ALL" if thorough else "14 sampled (two thirds on upload routes)"))
     for provider in ("dropbox", "yandex", "google"):
         provider_sweep(ctx, rng, provider, budget)
